@@ -120,7 +120,9 @@ func (fc *FnCtx) evalExpr(e Expr, env *Env) Val {
 		hi := fc.evalExpr(x.Hi, env).S()
 		fc.nfresh++
 		qv := fmt.Sprintf("%s!q%d", mangle(x.Var), fc.nfresh)
+		fc.inQuant++
 		body := fc.evalBool(x.Body, env.withBound(x.Var, intVal(qv)))
+		fc.inQuant--
 		rng := fmt.Sprintf("(and (<= %s %s) (< %s %s))", lo, qv, qv, hi)
 		if x.Forall {
 			return boolVal(fmt.Sprintf("(forall ((%s Int)) (=> %s %s))", qv, rng, body))
@@ -211,21 +213,24 @@ func (fc *FnCtx) fieldOf(xv Val, f string, h *HeapState) Val {
 				if _, isStruct := l.T.Underlying().(*types.Struct); isStruct {
 					// embedded struct: return a pointer to it so that further field selections work
 					sub := Val{K: KPtr, T: types.NewPointer(l.T), C: []string{l.ref}}
-					if !fc.isAllocConst(xv.C[0]) {
+					if !fc.isAllocConst(xv.C[0]) && fc.inQuant == 0 {
 						// a part of an object that is not one of this function's unescaped locals is none of them either
 						fc.noAliasLocal(sub)
 					}
 					return sub
 				}
 				lv := fc.loadLoc(h, l)
-				if ti := fc.typeInv(lv); ti != "" && ti != "true" {
-					// whatever the heap holds at a typed location is a well-formed value of that type
-					fc.assumeHere(ti)
-				}
-				switch lv.K {
-				case KPtr, KSlice, KIface:
-					// an address found in the heap is never that of a local whose address was not handed out
-					fc.noAliasLocal(lv)
+				if fc.inQuant == 0 {
+					// (side facts are stated outside quantifiers only: inside, the terms mention the bound variable)
+					if ti := fc.typeInv(lv); ti != "" && ti != "true" {
+						// whatever the heap holds at a typed location is a well-formed value of that type
+						fc.assumeHere(ti)
+					}
+					switch lv.K {
+					case KPtr, KSlice, KIface:
+						// an address found in the heap is never that of a local whose address was not handed out
+						fc.noAliasLocal(lv)
+					}
 				}
 				return lv
 			}
